@@ -595,7 +595,9 @@ def t_cat(I, ts, dim=0, **kw):
     if "axis" in kw:
         dim = kw["axis"]
     ts = I.iterate(ts)
-    return Tensor(tshape.cat(I, ts, dim))
+    out = Tensor(tshape.cat(I, ts, dim))
+    out.meta["cat_of"] = [x for x in ts if isinstance(x, Tensor)]
+    return out
 
 
 def t_stack(I, ts, dim=0):
